@@ -162,7 +162,7 @@ theorem readRelS : (s : Stmt) → FragS s = true → SpecOkS s = true → (fns :
       simp only [SpecOkS] at hs
       simp only [collectS] at H ⊢
       simp only [effS]
-      obtain ⟨H3, hG, hN, hL, hS⟩ := H.child
+      obtain ⟨H3, hG, hL, hS⟩ := H.child
       have H2 := H3.ofE (collectEs_spec decos hd _)
       have H1 := H2.ofE (collectEs_spec kws hk _)
       have R1 := (((RR.bind Dom a name).trans (readRelEs bases hb (.cls i :: fns) false false Dom Denc Lenc _ H1)).trans
@@ -200,27 +200,31 @@ theorem readRelS : (s : Stmt) → FragS s = true → SpecOkS s = true → (fns :
       simp only [Acc.toBlock, declBelowB, leaksB, shadowB, List.append_eq_nil_iff, List.filter_eq_nil_iff,
         BlockKind.isComp, beq_self_eq_true, ↓reduceIte, Bool.false_eq_true, Bool.or_self, true_and,
         (by decide : (BlockKind.class_ == BlockKind.function) = false),
-        (by decide : (BlockKind.class_ == BlockKind.lambda) = false)] at hG hN hL hS
+        (by decide : (BlockKind.class_ == BlockKind.lambda) = false)] at hG hL hS
       have hgD : ∀ x ∈ inner.globals, x ∈ Dom := fun x hx => H3.denc x (by simpa using hG.1 x hx)
-      have hnD : ∀ x ∈ inner.nonlocals, x ∈ Dom := fun x hx => H3.denc x (by simpa using hN.1 x hx)
       have hp0 : inner.params = [] := hC.params
-      have HI : Hyp (Dom ++ inner.binds) Denc (inner.params ++ inner.binds ++ inner.globals ++ inner.nonlocals) inner :=
-        ⟨fun x hx => by simp [hx], fun x hx => by simp [hgD x hx], fun x hx => by simp [hnD x hx],
+      have HI : Hyp (Dom ++ inner.binds ++ inner.nonlocals) Denc (inner.params ++ inner.binds ++ inner.globals ++ inner.nonlocals) inner :=
+        ⟨fun x hx => by simp [hx], fun x hx => by simp [hgD x hx], fun x hx => by simp [hx],
           fun x hx => by
             simp only [List.mem_append] at hx ⊢
             rcases hx with ((hx | hx) | hx) | hx
             · rw [hp0] at hx; simp at hx
-            · exact Or.inr hx
-            · exact Or.inl (hgD x hx)
-            · exact Or.inl (hnD x hx),
-          fun x hx => by simp [H3.denc x hx], hG.2, hN.2, hL, hS.2⟩
+            · exact Or.inl (Or.inr hx)
+            · exact Or.inl (Or.inl (hgD x hx))
+            · exact Or.inr hx,
+          fun x hx => by simp [H3.denc x hx], hG.2, hL, hS.2⟩
       have RI := readRelSs body hbody hs (.cls i :: fns) _ _ _ {} (by rw [hin]; exact HI)
       rw [hin] at RI
-      have hrel := class_block_rel i name inner (effSs (.cls i :: fns) body) Dom (ownLeaksSs body) hp0 hC.walrus hgD hnD
+      have hnlI : ∀ x, QN.sym x ∈ (effSs (.cls i :: fns) body).nonlocals ↔ x ∈ inner.nonlocals := by
+        intro x; rw [hM.nonlocals, hC.nonlocals]; simp
+      have hglI : ∀ x, QN.sym x ∈ (effSs (.cls i :: fns) body).globals ↔ x ∈ inner.globals := by
+        intro x; rw [hM.globals, hC.globals]; simp
+      have hrel := class_block_rel i name inner (effSs (.cls i :: fns) body) Dom (ownLeaksSs body) hp0 hC.walrus hgD
         (by
           intro x
           rw [hM.bound, hC.binds, hC.nonlocals]
           simp)
+        (fun x hx => (effSs_declRead body (.cls i :: fns)).sub _ (Or.inl ((hnlI x).mpr hx)))
         (by
           intro x hx
           by_cases hdd : x ∈ inner.params ++ inner.binds ++ inner.globals ++ inner.nonlocals
@@ -239,8 +243,11 @@ theorem readRelS : (s : Stmt) → FragS s = true → SpecOkS s = true → (fns :
       have h1 := R1 x hx
       have h2 := hrel x hx
       have h3 := hhdr x hx
-      simp only [Eff.append_read, Eff.append_bound, Eff.exported_false_read', Eff.exported_true_read, QSet.mem_diff,
-        List.mem_append, List.not_mem_nil, false_or, or_false] at h1 h2 h3 ⊢
+      have h4 : QN.sym x ∉ (effSs (.cls i :: fns) body).globals := fun h => hx (hgD x ((hglI x).mp h))
+      have h5 := hnlI x
+      simp only [Eff.append_read, Eff.append_bound, Eff.append_nonlocals, Eff.append_globals, effEs_nonlocals, effEs_globals,
+        Eff.exported_false_read', Eff.exported_true_read, QSet.mem_diff,
+        List.mem_append, List.not_mem_nil, false_or, or_false, List.nil_append, List.append_nil] at h1 h2 h3 ⊢
       grind
   | .functionDef i name args body decos returns _, hf, hs, fns, Dom, Denc, Lenc, a, H => by
       cases args with
@@ -252,7 +259,7 @@ theorem readRelS : (s : Stmt) → FragS s = true → SpecOkS s = true → (fns :
           argAnnotations_plain _ (by simp [List.all_append, hpo, har, hva, hko, hkw])
         simp only [collectS, hann, collectEs] at H ⊢
         simp only [effS]
-        obtain ⟨H4, hG, hN, hL, hS⟩ := H.child
+        obtain ⟨H4, hG, hL, hS⟩ := H.child
         have H3 := H4.ofE (collectEs_spec decos hdec _)
         have H2 := H3.ofE (collectEs_spec returns hret _)
         have H1 := H2.ofE (collectEs_spec kd hkd _)
@@ -267,14 +274,13 @@ theorem readRelS : (s : Stmt) → FragS s = true → SpecOkS s = true → (fns :
         generalize hin : collectSs body { params := (po ++ ar ++ ko ++ va ++ kw).filterMap paramName } = inner at *
         simp only [Acc.toBlock, declBelowB, leaksB, shadowB, List.append_eq_nil_iff, List.filter_eq_nil_iff,
           BlockKind.isComp, beq_self_eq_true, Bool.true_or, ↓reduceIte, Bool.false_eq_true, reduceCtorEq,
-          List.nil_append] at hG hN hL hS
+          List.nil_append] at hG hL hS
         have hgD : ∀ x ∈ inner.globals, x ∈ Dom := fun x hx => H4.denc x (by simpa using hG.1 x hx)
-        have hnD : ∀ x ∈ inner.nonlocals, x ∈ Dom := fun x hx => H4.denc x (by simpa using hN.1 x hx)
         have HI : Hyp (inner.params ++ inner.binds ++ inner.globals ++ inner.nonlocals)
             (inner.params ++ inner.binds ++ inner.globals ++ inner.nonlocals)
             (inner.params ++ inner.binds ++ inner.globals ++ inner.nonlocals) inner :=
           ⟨fun x hx => by simp [hx], fun x hx => by simp [hx], fun x hx => by simp [hx], fun x hx => hx, fun x hx => hx,
-            hG.2, hN.2, hL.2, hS.2⟩
+            hG.2, hL.2, hS.2⟩
         have RI := readRelSs body hbody hs (.fn i name :: fns) _ _ _ { params := (po ++ ar ++ ko ++ va ++ kw).filterMap paramName }
           (by rw [hin]; exact HI)
         rw [hin] at RI
@@ -287,6 +293,15 @@ theorem readRelS : (s : Stmt) → FragS s = true → SpecOkS s = true → (fns :
             simp only [Eff.append_bound, Eff.exported_false_bound', List.mem_append, hM.bound, mem_paramNames_iff]
             rw [hC.params, mem_specParams_iff, hC.binds, hC.nonlocals]
             simp)
+          (by intro x; simp [hM.nonlocals, hC.nonlocals])
+          (by intro x; simp [hM.globals, hC.globals])
+          (by
+            intro x hx
+            have hx' : x ∈ ownDeclsSs false body := by
+              have := (hC.nonlocals x).mp hx
+              simpa using this
+            have := (effSs_declRead body (.fn i name :: fns)).sub (.sym x) (Or.inl ((hM.nonlocals x).mpr hx'))
+            simpa using this)
           (by
             intro x hx
             by_cases hd : x ∈ inner.params ++ inner.binds ++ inner.globals ++ inner.nonlocals
@@ -303,7 +318,7 @@ theorem readRelS : (s : Stmt) → FragS s = true → SpecOkS s = true → (fns :
               (inner.toBlock i .function name)) := by
           intro x hx
           rw [accNeeds_child]
-          have := hrel x (fun h => hx (hgD x h)) (fun h => hx (hnD x h))
+          have := hrel x (fun h => hx (hgD x h))
           simp only [Eff.exported_true_read]
           grind
         exact (R1.trans Rc).congr (by intro x; simp; grind)
